@@ -708,6 +708,16 @@ class _ExprNorm(ast.NodeTransformer):
         # typing.cast(T, x) is x
         if f in ("cast", "typing.cast") and len(node.args) == 2 and not node.keywords:
             return node.args[1]
+        # any(v == E for v in X) -> E in X   (membership is `==` against each element in turn)
+        if f == "any" and len(node.args) == 1 and not node.keywords and isinstance(node.args[0], (ast.GeneratorExp, ast.ListComp)):
+            g = node.args[0]
+            if len(g.generators) == 1 and not g.generators[0].ifs and isinstance(g.generators[0].target, ast.Name) \
+                    and isinstance(g.elt, ast.Compare) and len(g.elt.ops) == 1 and isinstance(g.elt.ops[0], ast.Eq):
+                v = g.generators[0].target.id
+                l, r = g.elt.left, g.elt.comparators[0]
+                other = r if isinstance(l, ast.Name) and l.id == v else (l if isinstance(r, ast.Name) and r.id == v else None)
+                if other is not None and not any(isinstance(n, ast.Name) and n.id == v for n in ast.walk(other)):
+                    return ast.copy_location(ast.Compare(left=other, ops=[ast.In()], comparators=[g.generators[0].iter]), node)
         # f(*(a, *b)) -> f(a, *b)
         if any(isinstance(a, ast.Starred) and isinstance(a.value, (ast.Tuple, ast.List)) for a in node.args):
             args = []
@@ -993,6 +1003,28 @@ class Canon:
     def __init__(self, prog):
         self.prog = prog
         self.cache: dict = {}
+        norm.FINAL_ATTRS.clear()
+        norm.FINAL_ATTRS.update(self._final_attrs())
+
+    def _final_attrs(self) -> set[str]:
+        """attribute names stored (anywhere in the program) only inside __init__ / __post_init__ / __new__: a method call on
+        an object cannot rebind them, it can only change what the attribute's value contains"""
+        ctor, other = set(), set()
+
+        def scan(node, in_ctor):
+            for ch in ast.iter_child_nodes(node):
+                if isinstance(ch, (ast.FunctionDef, ast.AsyncFunctionDef)):
+                    scan(ch, ch.name in ("__init__", "__post_init__", "__new__"))
+                    continue
+                if isinstance(ch, ast.Attribute) and isinstance(ch.ctx, (ast.Store, ast.Del)):
+                    (ctor if in_ctor else other).add(ch.attr)
+                if isinstance(ch, ast.Call) and u(ch.func) in ("setattr", "object.__setattr__", "delattr"):
+                    a = ch.args[1] if len(ch.args) > 1 else None
+                    other.add(a.value if isinstance(a, ast.Constant) and isinstance(a.value, str) else "*")
+                scan(ch, in_ctor)
+        for m in self.prog.modules.values():
+            scan(m.tree, False)
+        return set() if "*" in other else ctor - other
 
     # ---- class knowledge for match lowering
     def _match_args(self, module):
@@ -1044,6 +1076,13 @@ class Canon:
             except Exception:
                 return None
         return resolve
+
+    @staticmethod
+    def unknown_helper(cls, name: str) -> bool:
+        """a private method the rule tables do not know (added after they were written): canonical bodies see through it at
+        every call site, so rules about entry points need not (and must not) judge it on its own"""
+        known = known_defs()
+        return name.startswith("_") and not name.startswith("__") and f"{cls.name}.{name}" not in known and name not in known
 
     def _lookup(self, module, cls, fn, inline: set[str], keep: set[str]):
         known = known_defs()
